@@ -14,7 +14,7 @@ try:
     r = subprocess.run(["go", "build", "./..."], cwd=d + "/repo", capture_output=True, text=True, env=dict(os.environ, GOFLAGS="-mod=mod", GOPROXY="off", GOSUMDB="off"))
     if r.returncode != 0:
         print("mutant does not compile:", r.stderr[:500]); sys.exit(2)
-    env = dict(os.environ, VERIF_REPO=d + "/repo")
+    env = dict(os.environ, VERIF_REPO=d + "/repo", VERIF_EVIDENCE_DIR=d + "/evidence")
     r = subprocess.run(["/verif/check", prop], env=env, capture_output=True, text=True)
     print(r.stdout[-3000:])
     print("exit", r.returncode)
